@@ -216,6 +216,18 @@ def corner_cases():
     yield {"k": "chain", "typed": True, "chain": [["compose", [a, b], None], c], "name": None,
            "starts": starts}
     yield {"k": "chain", "typed": True, "chain": [a], "name": "solo", "starts": starts}
+    # compositions nested behind variables WITHOUT a type
+    u = ["var", "raw", "inc", "", {}]
+    u2 = ["var", "raw2", "half", "", {"unit": "mm"}]
+    for inner in (["compose", [a, b], None], ["compose", [b, c], "bc"],
+                  ["combine", [a, b], None, "region"]):
+        for chain in ([u, inner, c], [u, u2, inner, c], [u, inner], [u, inner, c, a],
+                      [u, ["compose", [u2, inner], None], c]):
+            # (variables without a type are outside the property's quantifier: only values
+            # that carry no variable description yet, where Compose and Sequence agree anyway)
+            yield {"k": "chain", "typed": False, "chain": chain, "name": None,
+                   "starts": [st for st in starts if st["kind"] in
+                              ("bare", "bare-tuple", "empty-context", "context-tree")]}
     yield {"k": "combine", "vars": [a, b, c], "name": None, "type": "", "starts": starts}
     yield {"k": "combine", "vars": [a], "name": "one", "type": "region", "starts": starts}
 
@@ -1014,3 +1026,4 @@ RULE += (' Added: tuple-valued attributes holding lists / dicts; after every app
          'datum in Combine / Compose (the application must fail).')
 RULE += (' Added: a 2-tuple with a dict second as the data a Combine receives (after a getter, '
          'as a record with its own context, in a Sequence, in another Combine).')
+RULE += (' Added: compositions nested behind variables without a type (corner cases).')
